@@ -1,7 +1,7 @@
 (* C02 -- the Verilog reader yields the circuit the netlist denotes.  Statements only; proofs in Proofs/VerilogProofs.v. *)
 From CG Require Import Verilog.ExprParse.
 From stdpp Require Import strings gmap sets.
-From CG Require Import Types Sem Api Gen.Gen_grammar Verilog.Ast Verilog.Read Proofs.VerilogProofs Run.Run_C02.
+From CG Require Import Types Sem Api Gen.Gen_grammar Verilog.Ast Verilog.Read Proofs.VerilogProofs Run.Run_C02 Proofs.VerilogReadProofs.
 Open Scope string_scope.
 
 (* (1) obligation on the regenerated rule table of verilog.lark (expression .. primary, named_port_connection,
@@ -50,11 +50,16 @@ Theorem C02_port_mismatch_rejected : ∀ rsv bbs m C, read rsv bbs m = Ok C → 
 Proof. exact read_rejects_port_mismatch. Qed.
 Print Assumptions C02_port_mismatch_rejected.
 
-(* full statements for whole modules; not proved, decided per generated module by Run_C02.holds (which evaluates the
-   same guard in_subset and the executable form `denotes` of the conclusion) *)
-Definition C02_read_io_full : Prop := ∀ rsv bbs m C,
+(* (3b) a successful read of a module of the subset has exactly the declared inputs and outputs (invariant over the item
+   fold: which nodes are typed input, nothing is marked before module(); blackbox instances included) *)
+Theorem C02_read_io : ∀ rsv bbs m C,
   in_subset bbs m = true → list_to_set (module_ids m) ⊆ rsv → read rsv bbs m = Ok C →
   inputs (c_g C) = list_to_set (decl_inputs m) ∧ outputs (c_g C) = list_to_set (decl_outputs m).
+Proof. exact read_io. Qed.
+Print Assumptions C02_read_io.
+
+(* full statement for whole modules; not proved, decided per generated module by Run_C02.holds (which evaluates the
+   same guard in_subset and the executable form `denotes` of the conclusion) *)
 Definition C02_read_denotes_full : Prop := ∀ rsv bbs m,
   ports_match m = true → in_subset bbs m = true → list_to_set (module_ids m) ⊆ rsv →
   ∃ C, read rsv bbs m = Ok C ∧ c_name C = m_name m ∧
